@@ -192,6 +192,19 @@ func buildRequest(r *rand.Rand, name string, cl *jrClass, T int) (doc map[string
 		}
 	}
 	if cl.Class.Extras {
+		// members the runner has no use for (a comment, a time axis, units) do not stop a request from naming a model,
+		// its parameters and its inputs: at the top level, inside a parameter entry, inside an input entry (below)
+		doc["Comment"] = "run 17 of the calibration batch"
+		doc["Timestep"] = 86400
+		doc["Start"] = map[string]interface{}{"Year": 2001, "Month": 7}
+		if len(params) > 0 {
+			withUnits := map[string]interface{}{}
+			for k, v := range params[len(params)-1] {
+				withUnits[k] = v
+			}
+			withUnits["Units"] = "mm/d"
+			params[len(params)-1] = withUnits
+		}
 		params = append(params, map[string]interface{}{"Name": "noSuchParameter", "Value": 42.0})
 		if len(given) > 0 { // a duplicate of a given parameter with the same value
 			params = append(params, params[0])
@@ -259,6 +272,10 @@ func buildRequest(r *rand.Rand, name string, cl *jrClass, T int) (doc map[string
 	}
 	if cl.Class.Inputs == "emptyone" && len(inputs) >= 2 {
 		inputs[r.Intn(len(inputs))]["Values"] = []float64{}
+	}
+	if cl.Class.Extras && len(inputs) > 0 {
+		inputs[len(inputs)-1]["Units"] = "m3/s"
+		inputs[len(inputs)-1]["Source"] = map[string]interface{}{"Gauge": "410730", "Quality": []int{1, 1, 2}}
 	}
 	if cl.Class.Extras {
 		// a superset of the inputs: an undeclared series of a different length, listed FIRST
